@@ -39,6 +39,15 @@ func (p Params) String(key string) (val string) {
 	return
 }
 
+// clone the params map
+func (p Params) clone() Params {
+	np := make(Params, len(p))
+	for k, v := range p {
+		np[k] = v
+	}
+	return np
+}
+
 // Int get int value by key
 func (p Params) Int(key string) (val int) {
 	if str, ok := p[key]; ok {
@@ -338,7 +347,9 @@ func (r *Route) copyWithParams(ps Params) *Route {
 	var nr = *r
 	nr.regex = nil
 	nr.matches = nil
-	nr.params = ps
+	// Notice: the cache keeps its own copy. The given map goes to the handlers of the
+	// current request, what they do with it must not change the cached values.
+	nr.params = ps.clone()
 
 	return &nr
 }
